@@ -23,10 +23,36 @@ def data_of(v):
 
 BRANCH_NEST = [0]   # grouping used for Sequence-object branches of a Split (see build_stage "seqsum")
 NONE_D = -999    # spec/FlowSem.tla NoneD: the data value None
+# spec/FlowSem.tla FalseD, EStrD, EDictD, EListD, ETupD: data values that look like "nothing"
+FALSE_D, ESTR_D, EDICT_D, ELIST_D, ETUP_D = -2010, -2020, -2030, -2040, -2050
 
 
 def num(d):
-    return NONE_D if d is None else d
+    """Data value -> the integer that stands for it in the specification."""
+    if d is None:
+        return NONE_D
+    if d is False:
+        return FALSE_D
+    if isinstance(d, str) and d == "":
+        return ESTR_D
+    if isinstance(d, dict) and not d:
+        return EDICT_D
+    if isinstance(d, list) and not d:
+        return ELIST_D
+    if isinstance(d, tuple) and not d:
+        return ETUP_D
+    return d
+
+
+def special_flow(n):
+    """spec/FlowSem.tla SpecialFlow (fresh objects): values an implementation may confuse with "nothing"."""
+    import collections
+    vals = [0, None, {}, (None, {}), False, ("", {}), [], (0, {}), (), (1, {"a": 1}),
+            _Pair(2, collections.OrderedDict(a=1))]     # a tuple subclass with a dict subclass: a pair as well
+    return vals[:n]
+
+
+_Pair = __import__("collections").namedtuple("_Pair", ["data", "context"])
 
 
 def project(v):
@@ -51,6 +77,86 @@ def make_value(i, pairs):
     return (i, {}) if pairs else i
 
 
+def make_flow(n, pairs, base=0, vals="nat"):
+    """The flow of a scenario of spec/Flow.tla as a fresh list."""
+    if vals == "special":
+        return special_flow(n)
+    return [make_value(i + base, pairs) for i in range(n)]
+
+
+class OnlyIter(object):
+    """A re-iterable object that has nothing but __iter__ (every call gives a fresh generator)."""
+
+    def __init__(self, vals):
+        self._vals = vals
+
+    def __iter__(self):
+        return (v for v in self._vals)
+
+
+class OnlyGetItem(object):
+    """An iterable through the old sequence protocol (__getitem__ only)."""
+
+    def __init__(self, vals):
+        self._vals = vals
+
+    def __getitem__(self, i):
+        return self._vals[i]
+
+
+def iterator_class(vals):
+    """A callable that is a class: each call makes a new iterator over the flow."""
+    class FlowIter(object):
+        def __init__(self):
+            self._it = iter(list(vals))
+
+        def __iter__(self):
+            return self
+
+        def __next__(self):
+            return next(self._it)
+        next = __next__
+    return FlowIter
+
+
+FLOW_KINDS = ("iter", "list", "tuple", "gen", "iterable", "getitem", "deque", "range")
+
+
+def hand_over(flow, kind):
+    """The list *flow* handed over as an iterator, a generator or one of several containers."""
+    import collections
+    if kind == "iter":
+        return iter(flow)
+    if kind == "list":
+        return list(flow)
+    if kind == "tuple":
+        return tuple(flow)
+    if kind == "gen":
+        return (v for v in list(flow))
+    if kind == "iterable":
+        return OnlyIter(list(flow))
+    if kind == "getitem":
+        return OnlyGetItem(list(flow))
+    if kind == "deque":
+        return collections.deque(flow)
+    if kind == "range":
+        assert flow == list(range(len(flow)))
+        return range(len(flow))
+    raise ValueError(kind)
+
+
+def reusable(st):
+    """spec/FlowSem.tla Reusable: the element keeps nothing between runs."""
+    t = st["t"]
+    if t in ("map", "nodata", "filter", "slice", "lagk", "lastk", "nslice", "runif", "reverse", "end"):
+        return True
+    if t == "split":
+        return all(reusable(b) for b in st["brs"])
+    if t == "seqbr":
+        return all(reusable(b) for b in st["body"])
+    return False
+
+
 class Last(object):
     """User fill/compute element: yields the last filled value."""
 
@@ -66,7 +172,39 @@ class Last(object):
             yield self.prev
 
 
+class LastAttr(Last):
+    """The same with a data attribute named like a method (a run number, say): still a fill/compute element."""
+    run = "2023A"
+
+
+def _inc(v):
+    return (num(v[0]) + 1, v[1]) if has_ctx(v) else num(v) + 1
+
+
+class IncClass(object):
+    """A callable that is a class: calling it returns the transformed value."""
+
+    def __new__(cls, v):
+        return _inc(v)
+
+
+class IncHolder(object):
+    def __init__(self, k):
+        self.k = k
+
+    def apply(self, v):
+        return (num(v[0]) + self.k, v[1]) if has_ctx(v) else num(v) + self.k
+
+
 def _map_callable(f):
+    if f == "cls":
+        return IncClass
+    if f == "meth":
+        return IncHolder(1).apply          # a bound method
+    if f == "part":
+        import functools
+        return functools.partial(IncHolder.apply, IncHolder(1))
+
     def inc(v):
         return (num(v[0]) + 1, v[1]) if has_ctx(v) else num(v) + 1
 
@@ -105,14 +243,76 @@ class RunIsData(object):
     run = 5
 
 
+class FillOnly(object):
+    """half of the fill/compute interface"""
+
+    def fill(self, value):
+        pass
+
+
+class FillComputeData(object):
+    """fill and compute exist but are data attributes"""
+    fill = 1
+    compute = "c"
+
+
+class FillRequestOnly(object):
+    """a fill/request element: not convertible to a Run element"""
+
+    def fill(self, value):
+        pass
+
+    def request(self):
+        return iter(())
+
+
+def build_branch(br, pairs, use_context_el):
+    """A branch of a Split.  BRANCH_NEST[0] selects one of the equivalent ways to write it."""
+    import lena.core, lena.math
+    S = lena.core.Sequence
+    k = BRANCH_NEST[0] % 4
+    if br["t"] == "seqsum":
+        # the branch (f, Sum()) as a Sequence object, in one of its groupings into nested Sequences
+        f, acc = _map_callable(br["f"]), lena.math.Sum()
+        return [S(f, acc), S(f, S(acc)), S(S(f), acc), S(S(f), S(S(acc)))][k]
+    if br["t"] == "fcsum":
+        # the tuple (f, Sum()): a fill/compute sequence (also given as the FillComputeSeq it becomes)
+        f, acc = _map_callable(br["f"]), lena.math.Sum()
+        return [(f, acc), lena.core.FillComputeSeq(f, acc), (f, acc), lena.core.FillComputeSeq(f, acc)][k]
+    if br["t"] == "seqbr":
+        els = [build_stage(x, pairs, use_context_el) for x in br["body"]]
+        if k == 0:
+            return S(*els)
+        if k == 1:
+            return tuple(els) if len(els) > 1 else els[0]
+        if k == 2:
+            return S(S(els[0]), *els[1:])
+        return S(S(*els))
+    return build_stage(br, pairs, use_context_el)
+
+
 def build_stage(st, pairs=True, use_context_el=False):
     """One fresh real element for a stage descriptor."""
     import lena.core, lena.flow, lena.math, lena.context, lena.variables, lena.output
     t = st["t"]
+    if t == "nodata":
+        import lena.meta
+        return lena.meta.SetContext("s", 1)
+    if t == "nslice":
+        a, b, s = _n(st["a"]), _n(st["b"]), _n(st["s"])
+        if a is None and s == 1:
+            return lena.flow.Slice(b)
+        if s == 1:
+            return lena.flow.Slice(a, b)
+        return lena.flow.Slice(a, b, s)
+    if t == "lastattr":
+        return LastAttr()
     if t == "map":
         f = st["f"]
-        if f in ("inc", "dbl", "tag", "nul"):
+        if f in ("inc", "dbl", "tag", "nul", "cls", "meth", "part"):
             return _map_callable(f)
+        if f == "print":
+            return lena.flow.Print(transform=lambda x: "")
         if f == "id":
             return lena.context.Context() if (pairs and use_context_el) else lena.flow.Print(transform=lambda x: "")
         if f == "var":
@@ -136,6 +336,8 @@ def build_stage(st, pairs=True, use_context_el=False):
     if t == "count":
         return lena.flow.Count()
     if t == "runif":
+        if st["f"] == "bad":
+            return lena.flow.RunIf(_pred(st["p"]), 5)      # must raise LenaTypeError here
         inner = lena.flow.Filter(lambda v: False) if st["f"] == "drop" else _map_callable(st["f"])
         return lena.flow.RunIf(_pred(st["p"]), inner)
     if t == "reverse":
@@ -146,16 +348,15 @@ def build_stage(st, pairs=True, use_context_el=False):
         return lena.math.Sum()
     if t == "last":
         return Last()
-    if t == "seqsum":
-        # the branch (f, Sum()) as a Sequence object, in one of its groupings into nested Sequences
-        f, acc = _map_callable(st["f"]), lena.math.Sum()
-        S = lena.core.Sequence
-        return [S(f, acc), S(f, S(acc)), S(S(f), acc), S(S(f), S(S(acc)))][BRANCH_NEST[0] % 4]
+    if t in ("seqsum", "fcsum", "seqbr"):
+        return build_branch(st, pairs, use_context_el)
     if t == "split":
-        return lena.core.Split([build_stage(b, pairs, use_context_el) for b in st["brs"]], bufsize=st["bs"])
+        return lena.core.Split([build_branch(b, pairs, use_context_el) for b in st["brs"]], bufsize=_n(st["bs"]))
     if t == "bad":
         return {"int": 5, "str": "abc", "obj": NoRun(), "none": None, "dict": {},
-                "runnone": RunNotCallable(), "rundata": RunIsData()}[st["k"]]
+                "runnone": RunNotCallable(), "rundata": RunIsData(),
+                "zero": 0, "estr": "", "edict": {}, "elist": [], "false": False, "float": 2.5,
+                "fillonly": FillOnly(), "fillattr": FillComputeData(), "fillreq": FillRequestOnly()}[st["k"]]
     raise ValueError("unknown stage %r" % (st,))
 
 
@@ -235,6 +436,37 @@ def random_stage(rnd, alphabet):
         return {"t": k, "k": rnd.randint(1, 3)}
     if k == "runif":
         return {"t": "runif", "p": rnd.choice(["even", "lt2", "all"]), "f": rnd.choice(["inc", "dbl", "drop"])}
+    if k == "nodata":
+        return {"t": "nodata"}
+    if k == "print":
+        return {"t": "map", "f": "print"}
+    if k == "nslice":
+        pat = rnd.choice(["A", "B", "C1", "C2", "C3", "C4"])
+        p, q = rnd.randint(1, 3), rnd.randint(1, 3)
+        a, b = {"A": (NONE, -p), "B": (p - 1, -q), "C1": (-p, NONE), "C2": (-p, -p - q + 1),
+                "C3": (-p - q, -p), "C4": (-p, q - 1)}[pat]
+        return {"t": "nslice", "a": a, "b": b, "s": rnd.randint(1, 3)}
+    if k == "lagslice":      # the streaming sign patterns only (negative stop, C2, C4 with an early exit)
+        p, q = rnd.randint(1, 3), rnd.randint(1, 3)
+        a, b = rnd.choice([(NONE, -p), (p - 1, -q), (-p, -p - q + 1)])
+        return {"t": "nslice", "a": a, "b": b, "s": rnd.randint(1, 3)}
+    if k == "splitx":
+        c = rnd.choice(["empty", "none", "big", "seq", "nested", "fc"])
+        if c == "empty":
+            return {"t": "split", "brs": [], "bs": rnd.randint(1, 3)}
+        if c == "none":
+            return {"t": "split", "brs": [{"t": "map", "f": "inc"}], "bs": NONE}
+        if c == "big":
+            return {"t": "split", "brs": [{"t": "filter", "p": "even"}, {"t": "map", "f": "dbl"}], "bs": 1000}
+        if c == "seq":
+            body = [rnd.choice([{"t": "filter", "p": "even"}, {"t": "map", "f": "inc"},
+                                {"t": "slice", "a": 0, "b": 1, "s": 1},
+                                {"t": "runif", "p": "even", "f": "dbl"}]) for _ in range(rnd.randint(1, 3))]
+            return {"t": "split", "brs": [{"t": "seqbr", "body": body}, {"t": "map", "f": "inc"}], "bs": rnd.randint(1, 4)}
+        if c == "nested":
+            inner = {"t": "split", "brs": [{"t": "map", "f": "dbl"}, {"t": "filter", "p": "lt2"}], "bs": rnd.randint(1, 2)}
+            return {"t": "split", "brs": [{"t": "seqbr", "body": [inner]}], "bs": rnd.randint(1, 4)}
+        return {"t": "split", "brs": [{"t": "fcsum", "f": "inc"}, {"t": "map", "f": "inc"}], "bs": rnd.randint(1, 3)}
     if k == "split":
         brs = []
         for _ in range(rnd.randint(1, 3)):
